@@ -17,8 +17,8 @@ func init() { register("C05", "exploration", runC05) }
 
 var (
 	c05Keys  = []string{"r1", "r2\x00", "k/3", "\xffz", "r1\nx"}
-	c05Fams  = []string{"f1", "f2", "g"}
-	c05Quals = []string{"", "a", "b\x00", "c", "\xfe", "a\nb"}
+	c05Fams  = []string{"f1", "f2", "g", "f"}
+	c05Quals = []string{"", "a", "b\x00", "c", "\xfe", "a\nb", "1a", "2"}
 	c05Vals  = []string{"", "v", "val1", "\x00\x01", "zz\xff", "val2", "val\n1"}
 	c05TSs   = []int64{0, 1000, 2000, 3000}
 )
@@ -58,6 +58,13 @@ func c05BuildTable(run *common.Run, srv *drive.Srv, ti int, single bool) (string
 		}
 		if len(muts) == 0 {
 			muts = append(muts, model.Mut{Kind: model.SetCell, Fam: "f1", Qual: "a", TS: 1000, Val: "v"})
+		}
+		if k == c05Keys[1] && !single {
+			// columns of different families whose family name + qualifier are the same string ("f"+"1a" = "f1"+"a",
+			// "f"+"2" = "f2"+""): whatever merges or indexes columns must keep them apart
+			for _, fq := range [][2]string{{"f", "1a"}, {"f1", "a"}, {"f", "2"}, {"f2", ""}} {
+				muts = append(muts, model.Mut{Kind: model.SetCell, Fam: fq[0], Qual: fq[1], TS: 2000, Val: "in-" + fq[0]})
+			}
 		}
 		if k == c05Keys[0] {
 			// one long column: 40 versions at 0, 1000, ..., 39000 (the boundary timestamps of the leaf list fall on cells)
@@ -331,7 +338,7 @@ func c05Basis(ctx gen.FilterCtx) []*model.Filter {
 }
 
 func runC05(run *common.Run) {
-	run.Rule = "case = one ReadRows(filter) over a 5-row multi-column/multi-version table (binary and newline-containing keys, qualifiers and values; rows with 2-3 families, and one table whose rows have a single family with 3-5 columns; half of the rows got further columns through ReadModifyWriteRow; one row has a column with 40 versions) on one engine, compared row by row with an independent filter evaluator applied to the unfiltered rows as served. Parts: (leaf) every leaf filter over its boundary arguments [complete list]; (pair) ALL chains and interleaves of ordered pairs and (cond) ALL conditions of ordered triples incl. nil branches over a 24-leaf basis [complete]; (merge) ALL chain(interleave(X,Y), cut) over the basis and six positional cuts on the single-family table [complete]; (tree) PRNG trees to depth 4. Non-trivial = the filter changed at least one row without emptying the whole result, or was rejected; distinct by (filter, table, engine)."
+	run.Rule = "case = one ReadRows(filter) over a 5-row multi-column/multi-version table (binary and newline-containing keys, qualifiers and values; rows with 2-3 families, and one table whose rows have a single family with 3-5 columns; half of the rows got further columns through ReadModifyWriteRow; one row has a column with 40 versions; one row has columns of different families whose family+qualifier concatenations coincide) on one engine, compared row by row with an independent filter evaluator applied to the unfiltered rows as served. Parts: (leaf) every leaf filter over its boundary arguments [complete list]; (pair) ALL chains and interleaves of ordered pairs and (cond) ALL conditions of ordered triples incl. nil branches over a 24-leaf basis [complete]; (merge) ALL chain(interleave(X,Y), cut) over the basis and six positional cuts on the single-family table [complete]; (tree) PRNG trees to depth 4. Non-trivial = the filter changed at least one row without emptying the whole result, or was rejected; distinct by (filter, table, engine)."
 	run.Assumptions = []string{"evaluator written from the Bigtable filter documentation, own byte-regex matcher for a restricted RE2 subset", "an invalid argument must be rejected only if the documented semantics apply it to at least one cell / non-empty row; otherwise either outcome is accepted", "cells-per-row limit/offset cutting into a multi-family row that came out of an interleave is not decided (family order unspecified)", "a zero cells-per-row/column limit may be rejected or return nothing"}
 	j := common.NewJournal("C05")
 	ntables := run.N(2, 4)
